@@ -237,6 +237,9 @@ RunsOf(t) ==
          \* this position evaluates the tree four times and prints its truth value: own expectation
          out |-> Render(World(PosWorld("iftruth", t.ty, t.e)), "main", Ctx2).out,
          xcalls |-> [id \in SpyIds(t.e) |-> 4 * CountOf(Ref(t).calls, id)]] : c \in {d \in combos : d[1] = "iftruth"}}
+       \* (trees with callbacks also with the engine in debug mode: what is logged evaluates nothing a second time)
+       \cup (IF SpyIds(t.e) = {} THEN {} ELSE
+             {[label |-> "direct/debug", tp |-> Sources(PosWorld("direct", t.ty, t.e), LMin), xcalls |-> [id \in {} |-> 0], debug |-> TRUE]})
 
 CaseOf(t) ==
     LET ref == Ref(t)
